@@ -30,7 +30,7 @@ fn c20_strategy() -> impl Strategy<Value = Scenario> {
     )
         .prop_map(|(steps, start_height, seed)| Scenario {
             cfg: Cfg::default(),
-            payments: vec![PaymentSpec { preimage: 0x11, invoice_amount: Some(1_000_000), tlv_amount: 1_000_000, hints: Hints::None, explicit_payee: false, recipient_ok: true, drain_parts: 1 }],
+            payments: vec![PaymentSpec { preimage_hi: 0, preimage: 0x11, invoice_amount: Some(1_000_000), tlv_amount: 1_000_000, hints: Hints::None, explicit_payee: false, recipient_ok: true, drain_parts: 1 }],
             htlcs: vec![],
             steps,
             write_faults: vec![],
